@@ -303,6 +303,18 @@ def r4_change(c, facts):
                             f = fp[-1]
             fields.append(f)
         good = fields == ['start', 'end']
+        # each bound is a conversion result, unmodified: every reaching definition of a bound is position_to_utf8(..)
+        for which, op in zip(('start', 'end'), rng[0]['ops']):
+            if 'l' not in op:
+                continue
+            s3 = MF.slice_back(ch, op['l'], idx, stop_at=lambda n: P.strip(n).endswith('unicode::position_to_utf8'))
+            arith = [st for l in s3['locals'] for kind, bi, st in idx.get(l, []) if kind == 'assign' and st['rv']['r'] in ('binop', 'cast') and (st['rv']['r'] == 'binop' or 'l' in st['rv'].get('op', {}))]
+            arith = [st for st in arith if st['rv']['r'] == 'binop']
+            others = sorted({P.strip(n).split('::')[-1] for n, _, _ in s3['calls']} - {'position_to_utf8'})
+            if arith or others:
+                c.bad(R, 'range-%s-not-a-plain-conversion' % which, 'the %s of the replaced range is computed (%s) instead of being the conversion of the client position: lengths sent by the client are in UTF-16 units, the buffer is indexed in bytes' % (which, ', '.join(['arithmetic'] * bool(arith) + others)))
+            else:
+                c.ok(R, {'replace_range ' + which: 'position_to_utf8 result, unmodified'})
         if good:
             c.ok(R, {'replace_range': 'start..end from range.start / range.end'})
         else:
